@@ -38,6 +38,18 @@ def main(tier, prop="C12"):
                         found[key] = (h, m, i, opi)
     for (p, c), (h, m, i, opi) in found.items():
         rep.add_violation(c, f"history #{i}, operation {opi}: {m}", h, "loghistory")
+    # second generator (Hypothesis strategies, same executor; shrinks to a minimal history)
+    n_hyp = 8 if tier == "quick" else 64
+    hres = harness.run_batch(logmachine.run_hypothesis, [(seed * 1000 + j, 250 if tier == "quick" else 4000, (prop,)) for j in range(n_hyp)],
+                             timeout=3600, report=rep)
+    hyp_examples = 0
+    for o in hres:
+        if o is None:
+            continue
+        hyp_examples += o["stats"]["examples"]
+        for h, bad in o["failures"]:
+            for p, c, m, opi in bad:
+                rep.add_violation(c, f"hypothesis-generated history (seed {o['seed']}), operation {opi}: {m}", h, "loghistory")
     # run-level part: the log of full runs vs the call log
     extra = {}
     if prop == "C12":
@@ -62,6 +74,7 @@ def main(tier, prop="C12"):
         distinct_nontrivial=len(shapes),
         rule="seeded operation histories (1-40 ops: call new/repeat/partially-coinciding point with record on/off, add, failing call, filter) on a real FunctionLogger, D 1-4, cache_size 1-8, noise level 0/1/2, no/linear/log/mixed transform; distinct = distinct abstract history shapes (D, level, transform, cache bucket, set of op kinds); whole log compared with the reference model after every operation",
         histories=n_done, operations=stats.get("ops", 0), op_stats=dict(stats),
+        hypothesis_generator=dict(prng_values=n_hyp, examples=hyp_examples, note="hypothesis strategies feed the same executor; one process per PRNG value, example database off"),
         distinct_log_states=dict(count=len(states), measure="(noise level, #records, merged?, #growths, no-record hit?)"),
         histories_per_hour=int(n_done / max(wall, 1e-9) * 3600),
         fault_fired={"failing target call (log must be unchanged)": stats.get("faults", 0)},
